@@ -511,7 +511,7 @@ class ExtendedIndexedOperand(Operand):
             return CodePackage(
                 op_code=NumericValue(self.instruction.mode.ind),
                 post_byte=NumericValue(0x9F),
-                additional=self.value,
+                additional=NumericValue(-self.value.int if self.value.is_negative() else self.value.int, size_hint=4),
                 size=size,
                 max_size=size,
             )
